@@ -248,11 +248,17 @@ func (o *structFieldsCBOR) Get(key int) (cbor.RawMessage, bool) {
 func (o *structFieldsCBOR) Delete(key int) {
 	delete(o.Fields, key)
 
-	for i, existing := range o.Keys {
-		if existing == key {
-			o.Keys = append(o.Keys[:i], o.Keys[i+1:]...)
+	// filter in place: re-slicing o.Keys while ranging over it goes out of
+	// bounds when the key occurs more than once
+	keys := o.Keys[:0]
+
+	for _, existing := range o.Keys {
+		if existing != key {
+			keys = append(keys, existing)
 		}
 	}
+
+	o.Keys = keys
 }
 
 func (o *structFieldsCBOR) ToCBOR(em cbor.EncMode) ([]byte, error) {
